@@ -25,6 +25,7 @@ abbrev Cache := List ((String × Tag) × (Nat × CodeDesc))
 inductive PatchScope
   | getCode        -- only while locating / writing the module's own bytecode
   | execModule     -- during the whole execution of the hooked module, nested imports included
+  | getCodeIfWriting  -- like `getCode`, but skipped in a run that writes no bytecode (`-B`)
   deriving DecidableEq, Repr
 
 /-- one module load inside a run -/
@@ -41,42 +42,50 @@ def cacheLookup (c : Cache) (k : String × Tag) : Option (Nat × CodeDesc) := c.
 def cacheStore (c : Cache) (k : String × Tag) (v : Nat × CodeDesc) : Cache :=
   (k, v) :: c.filter (fun e => e.1 != k)
 
-/-- the tag under which `SourceLoader.get_code` looks for / writes the bytecode of this load -/
-def tagFor (scope : PatchScope) (l : Load) : Tag :=
+/-- the tag under which `SourceLoader.get_code` looks for / writes the bytecode of this load;
+    `writes` = the run writes bytecode (no `-B` / `PYTHONDONTWRITEBYTECODE` / `sys.dont_write_bytecode`) -/
+def tagFor (scope : PatchScope) (writes : Bool) (l : Load) : Tag :=
   match l.hookedWith with
-  | some key => .jaxtyping key            -- own patch (either scope)
+  | some key =>
+    (match scope, writes with
+     | .getCodeIfWriting, false => .default   -- the patch is skipped: the interpreter's own name
+     | _, _ => .jaxtyping key)                -- own patch
   | none =>
     match scope, l.insideHooked with
     | .execModule, some outerKey => .jaxtyping outerKey   -- the enclosing module's patch is still active
     | _, _ => .default
 
-/-- `get_code`: reuse the cached code if it was written for the current source version,
-    otherwise compile (instrumenting iff hooked) and write. Returns the code executed. -/
-def loadModule (scope : PatchScope) (version : Nat) (c : Cache) (l : Load) : Cache × CodeDesc :=
-  let tag := tagFor scope l
+/-- `get_code`: reuse the cached code if it was written for the current source version (a run that
+    writes no bytecode still READS it), otherwise compile (instrumenting iff hooked) and, in a writing
+    run, store. Returns the code executed. -/
+def loadModule (scope : PatchScope) (writes : Bool) (version : Nat) (c : Cache) (l : Load) : Cache × CodeDesc :=
+  let tag := tagFor scope writes l
+  let code' : CodeDesc := { version := version, instr := l.hookedWith }
+  let c' := if writes then cacheStore c (l.name, tag) (version, code') else c
   match cacheLookup c (l.name, tag) with
-  | some (v, code) =>
-    if v = version then (c, code)
-    else
-      let code' : CodeDesc := { version := version, instr := l.hookedWith }
-      (cacheStore c (l.name, tag) (version, code'), code')
-  | none =>
-    let code' : CodeDesc := { version := version, instr := l.hookedWith }
-    (cacheStore c (l.name, tag) (version, code'), code')
+  | some (v, code) => if v = version then (c, code) else (c', code')
+  | none => (c', code')
 
 /-- a run: loads in import order, each with the current source version of its module -/
-def runLoads (scope : PatchScope) (versions : String → Nat) : Cache → List Load → Cache × List (String × CodeDesc)
+def runLoads (scope : PatchScope) (writes : Bool) (versions : String → Nat) : Cache → List Load → Cache × List (String × CodeDesc)
   | c, [] => (c, [])
   | c, l :: ls =>
-    let (c1, code) := loadModule scope (versions l.name) c l
-    let (c2, rest) := runLoads scope versions c1 ls
+    let (c1, code) := loadModule scope writes (versions l.name) c l
+    let (c2, rest) := runLoads scope writes versions c1 ls
     (c2, (l.name, code) :: rest)
 
-/-- a history: each run has its own source versions (edits in between) and its own loads -/
-def runHistory (scope : PatchScope) : Cache → List ((String → Nat) × List Load) → Cache × List (List (String × CodeDesc))
+/-- one interpreter run: the source versions it sees (edits in between), whether it writes
+    bytecode, and its loads in import order -/
+structure Run where
+  versions : String → Nat
+  writes : Bool := true
+  loads : List Load
+
+/-- a history of runs over one cache directory -/
+def runHistory (scope : PatchScope) : Cache → List Run → Cache × List (List (String × CodeDesc))
   | c, [] => (c, [])
-  | c, (vs, ls) :: rs =>
-    let (c1, o) := runLoads scope vs c ls
+  | c, r :: rs =>
+    let (c1, o) := runLoads scope r.writes r.versions c r.loads
     let (c2, os) := runHistory scope c1 rs
     (c2, o :: os)
 
